@@ -282,3 +282,14 @@ def canon(func_node, patterns, env: Optional[Env] = None):
         if isinstance(n, ast.Name) and n.id in taken and n.id not in mapping and n.id not in env.values():
             mapping[n.id] = n.id + "__other"
     return _Rename(mapping).visit(copy.deepcopy(func_node)), env
+
+
+def canon_func(f, patterns, env: Optional[Env] = None):
+    """FuncInfo-level convenience: a shallow copy of `f` whose .node is the canonicalised tree (file, qualname, lines unchanged)."""
+    import copy
+    node, _ = canon(f.node, patterns, env)
+    if node is f.node:
+        return f
+    g = copy.copy(f)
+    g.node = node
+    return g
